@@ -404,8 +404,154 @@ func runHist(seed uint64, dur time.Duration, minRounds, G, M int, maxReport int)
 	fmt.Printf("HIST rounds=%d ops=%d illegal=%d unknown=%d\n", rounds, ops, illegal, unknown)
 }
 
+// ---------------------------------------------------------------- bulk mode
+//
+// Atomicity of the bulk operations. One writer moves the map between exactly two
+// contents — empty and "keys 0..N-1" — and every move is ONE SafeKV call
+// (Map-fill, Delete(all keys...), Clear, Map-empty). Observers take snapshots with
+// Len / Keys / Values / Range / All / GetWithMap / Map and count: a count that is
+// neither 0 nor N was taken from a state that no single call boundary produces,
+// i.e. some bulk call (or the snapshot) is not atomic. Witness = observer method +
+// writer call in flight + N + observed count. No timing is involved in the verdict.
+
+type bulkWitness struct {
+	Observer string `json:"observer"`
+	Writer   string `json:"writer_call_in_flight"`
+	N        int    `json:"n"`
+	Observed int    `json:"observed_count"`
+	Cycle    int64  `json:"writer_cycle"`
+	Seed     uint64 `json:"seed"`
+}
+
+func runBulk(seed uint64, n int, dur time.Duration, minCycles int64) {
+	s := mapz.NewSafeKV[int, int](0)
+	keys := make([]int, n)
+	for i := range keys {
+		keys[i] = i
+	}
+	var inflight atomic.Value
+	inflight.Store("none")
+	var cycles, observations atomic.Int64
+	var stop atomic.Bool
+	var mu sync.Mutex
+	seen := map[string]bool{}
+	var wits []bulkWitness
+	report := func(obs string, cnt int, before string) {
+		w := before
+		if w == "none" {
+			w = inflight.Load().(string)
+		}
+		mu.Lock()
+		if !seen[obs+"/"+w] && len(wits) < 8 {
+			seen[obs+"/"+w] = true
+			wits = append(wits, bulkWitness{Observer: obs, Writer: w, N: n, Observed: cnt, Cycle: cycles.Load(), Seed: seed})
+		}
+		mu.Unlock()
+	}
+	fill := func() {
+		inflight.Store("Map(fill)")
+		s.Map(func(m mapz.KV[int, int]) {
+			for _, k := range keys {
+				m[k] = k + 1
+			}
+		})
+		inflight.Store("none")
+	}
+	var wg sync.WaitGroup
+	wg.Add(1)
+	go func() { // writer
+		defer wg.Done()
+		r := &rng{s: seed}
+		for !stop.Load() {
+			fill()
+			switch r.intn(3) {
+			case 0:
+				inflight.Store("Delete")
+				s.Delete(keys...)
+			case 1:
+				inflight.Store("Clear")
+				s.Clear()
+			case 2:
+				inflight.Store("Map(empty)")
+				s.Map(func(m mapz.KV[int, int]) {
+					for k := range m {
+						delete(m, k)
+					}
+				})
+			}
+			inflight.Store("none")
+			cycles.Add(1)
+		}
+	}()
+	observers := []struct {
+		name string
+		f    func() int
+	}{
+		{"Len", func() int { return s.Len() }},
+		{"Keys", func() int { return len(s.Keys()) }},
+		{"Values", func() int { return len(s.Values()) }},
+		{"Range", func() int { c := 0; s.Range(func(int, int) bool { c++; return true }); return c }},
+		{"All", func() int {
+			c := 0
+			for range s.All() {
+				c++
+			}
+			return c
+		}},
+		{"GetWithMap", func() int {
+			m := make(map[int]int, n)
+			for _, k := range keys {
+				m[k] = 0
+			}
+			s.GetWithMap(m)
+			c := 0
+			for _, v := range m {
+				if v != 0 {
+					c++
+				}
+			}
+			return c
+		}},
+		{"Map(len)", func() int { c := 0; s.Map(func(m mapz.KV[int, int]) { c = len(m) }); return c }},
+	}
+	for _, o := range observers {
+		wg.Add(1)
+		o := o
+		go func() {
+			defer wg.Done()
+			for !stop.Load() {
+				before := inflight.Load().(string)
+				c := o.f()
+				observations.Add(1)
+				if c != 0 && c != n {
+					report(o.name, c, before)
+				}
+			}
+		}()
+	}
+	deadline := time.Now().Add(dur)
+	hard := time.Now().Add(dur * 20)
+	for time.Now().Before(hard) {
+		if time.Now().After(deadline) && cycles.Load() >= minCycles {
+			break
+		}
+		time.Sleep(time.Millisecond)
+	}
+	stop.Store(true)
+	wg.Wait()
+	mu.Lock()
+	for _, w := range wits {
+		b, _ := json.Marshal(w)
+		fmt.Printf("BULK %s\n", b)
+	}
+	mu.Unlock()
+	fmt.Printf("BULKSTAT n=%d cycles=%d observations=%d witnesses=%d\n", n, cycles.Load(), observations.Load(), len(wits))
+}
+
 func main() {
-	mode := flag.String("mode", "pairs", "pairs | hist")
+	mode := flag.String("mode", "pairs", "pairs | hist | bulk")
+	bulkN := flag.Int("n", 300, "bulk mode: number of keys")
+	minCycles := flag.Int64("mincycles", 50, "bulk mode: minimum number of fill/empty cycles")
 	seed := flag.Uint64("seed", 1, "seed")
 	pair := flag.String("pair", "", "pairs mode: only this pair, e.g. Keys,Set")
 	perPair := flag.Duration("perpair", 25*time.Millisecond, "pairs mode: minimum time per pair")
@@ -420,6 +566,8 @@ func main() {
 		runPairs(*pair, *seed, *perPair, *minIters)
 	case "hist":
 		runHist(*seed, *dur, *minRounds, *G, *M, 3)
+	case "bulk":
+		runBulk(*seed, *bulkN, *dur, *minCycles)
 	default:
 		fmt.Fprintln(os.Stderr, "unknown mode")
 		os.Exit(2)
